@@ -64,6 +64,16 @@ TECHNIQUE = 'Lean 4 proof (sound may-write analysis + kernel-evaluated check per
 # deep snapshots
 # =================================================================================================
 
+
+def report(ctx, key, what, witness, cap=3):
+    """ctx.violation, capped per key so that a frequent class cannot crowd out another"""
+    n = sum(1 for v in ctx.violations if v['key'] == key)
+    if n < cap:
+        getattr(ctx, 'violation')(key, what, witness)
+    else:
+        ctx.count('violation:' + key)
+
+
 def snap(obj, depth=0, seen=None):
     """canonical, hashable, JSON-able deep snapshot of everything reachable from `obj`"""
     import numpy as np
@@ -260,7 +270,7 @@ def call_and_compare(ctx, label, cfg, fn, args, kwargs, extra=None):
     ctx.count('call:' + label.split('.')[0] + (':raised' if err else ''))
     if before != after:
         d = first_diff(before, after)
-        ctx.violation(f'C09:arg-mutated:{label}', f'{label} modified an argument in configuration {cfg}: {d}',
+        report(ctx, f'C09:arg-mutated:{label}', f'{label} modified an argument in configuration {cfg}: {d}',
                       {'kind': 'arg', 'function': label, 'config': cfg, 'diff': d, **(extra or {})})
         return True
     return False
@@ -760,7 +770,7 @@ def run_histories(ctx, deep):
                         key = 'C09:scattering-params-cache-shared'     # the class fixed in a087e21
                     if (key, pname) not in bad_seen:
                         bad_seen.add((key, pname))
-                        ctx.violation(key, f'{pname} after {applied} differs from the pristine value',
+                        report(ctx, key, f'{pname} after {applied} differs from the pristine value',
                                       {'kind': 'hist', 'family': name, 'steps': [[pi, mi] for pi, mi in seq], 'producer': pname,
                                        'applied': applied})
             if base_obs is not None:
@@ -769,7 +779,7 @@ def run_histories(ctx, deep):
                     key = f'C09:history-dependent:{name}:source-object-modified'
                     if key not in bad_seen:
                         bad_seen.add(key)
-                        ctx.violation(key, f'the object the combinators were applied to changed after {applied}',
+                        report(ctx, key, f'the object the combinators were applied to changed after {applied}',
                                       {'kind': 'hist', 'family': name, 'steps': [[pi, mi] for pi, mi in seq], 'applied': applied})
             # the model (copying hand-out): every lookup pristine
             ops = []
@@ -889,9 +899,9 @@ def replay(ctx, payload):
                         pass
             for pname, p in producers:
                 if repr(canon(p())) != ref[name + '::' + pname]:
-                    ctx.violation(payload['key'], f'{pname} differs from pristine', w)
+                    report(ctx, payload['key'], f'{pname} differs from pristine', w)
             if len(fam) > 4 and repr(fam[4]()) != ref[name + '::__base__']:
-                ctx.violation(payload['key'], 'source object modified', w)
+                report(ctx, payload['key'], 'source object modified', w)
     for v in ctx.violations[before:]:
         print('replay:', v['key'], v['what'][:200])
     return len(ctx.violations) > before
